@@ -158,6 +158,13 @@ def check(run, views, tier):
     for cfg, crates in views.items():
         run.cfg = cfg
         F = crates["ipp"]
+        # the nesting limit is tested before the stack grows (a limit tested after the push refuses the deepest legal message) - R-DEPTH
+        from .. import guardrules as _gr
+        from ..engine import VERIF as _V, load_json as _lj
+        import os as _os
+        _saved = (run.explanation, run.trusted, run.not_decided)
+        _gr.r_depth(run, F, _lj(_os.path.join(_V, "tables", "panic.json")))
+        run.explanation, run.trusted, run.not_decided = _saved
         nd = rr.r_dispatch(run, F)
         run.floor("R-DISPATCH", nd, 512 if rr.async_on(F) else 256, "tag bytes classified")
         # the parser formats every decoded value in a trace!() call: a Display that can panic on well-formed text makes the
@@ -166,7 +173,7 @@ def check(run, views, tier):
         from ..engine import Only
         TP = load_json(os.path.join(VERIF, "tables", "panic.json"))
         g = gr.call_graph(F)
-        gr.r_guard(Only(run, "|text slice of", "|panic|", "|unwrap|"), F, TP, gr.cone(g, gr.PARSE_ROOTS))
+        gr.r_guard(Only(run, "|text slice of", "|panic|", "|unwrap|", "|length guard of"), F, TP, gr.cone(g, gr.PARSE_ROOTS))
         n = cr.r_tagmap(run, F, T, check_registry=True)
         run.floor("R-TAGMAP", n, 19, "fixed-tag kinds")
         ne, ndec = cr.r_layout(run, F, T, external=True, casts=False)
